@@ -1,183 +1,240 @@
 /-
-C02, joint model, one-in-port node kinds, part 2: the steps of the node model, restated for `JB`.
+C02, joint model over the abstract tracer, part 2: transport of the request invariant along a change of the ghost log
+at one key (`Tr`), the reference answer of a complete request, the answers a flush emits.
 -/
 import Uniflow.Proofs.FlowH1
 
 namespace Uniflow.FlowH
 open Uniflow.Tracer Uniflow.Node Uniflow.Flow Uniflow.FlowInv Uniflow.FlowG Uniflow.ATracer
+open Uniflow.ATracer (getL_setOrDel getL_aset)
 
-theorem jb_deliver (nd : Node) (a : A) (nx : Nat) (h : JB nd a nx) (th : Thread) (ht : nd.threads = [th])
-    (c : Pid) (v : Val) (hc : nx ≤ c) :
-    Node.step nd (.deliver 0 ⟨c, v⟩) =
-      some ({ nd with threads := [{ th with inbox := th.inbox ++ [⟨c, v⟩] }] }, []) ∧
-    JB { nd with threads := [{ th with inbox := th.inbox ++ [⟨c, v⟩] }] } a (c + 1) := by
-  have hg : getThread nd.threads 0 = some th := by rw [ht]; rfl
-  have hJ := jb_fut nd a nx h [c] (by simp) (by intro k hk; simp at hk; rw [hk]; exact hc)
-  have hJ' := J_deliver nd a [] 0 ⟨c, v⟩ th (by simpa [introS] using hJ) hg
-  have hset : setThread nd.threads 0 { th with inbox := th.inbox ++ [⟨c, v⟩] } =
-      [{ th with inbox := th.inbox ++ [⟨c, v⟩] }] := by rw [ht]; rfl
-  rw [hset] at hJ'
-  refine ⟨by simp [Node.step, hg, hset], hJ', rfl, ?_, h.np, h.r0⟩
-  intro k hk
-  simp only [List.mem_append, List.flatMap_cons, List.flatMap_nil, List.append_nil, tids, List.map_append,
-    List.map_cons, List.map_nil, List.mem_cons, List.mem_singleton] at hk
-  have hold : ∀ k, k ∈ ids a.reqs ∨ k ∈ tids th → k < nx := by
-    intro k hk'; apply h.bnd k
-    rw [ht]; simpa [List.mem_append] using hk'
-  rcases hk with hk | (hk | hk | hk) | hk
-  · exact Nat.lt_succ_of_lt (Nat.lt_of_lt_of_le (hold k (Or.inl hk)) hc)
-  · exact Nat.lt_succ_of_lt (Nat.lt_of_lt_of_le (hold k (Or.inr (by simp [tids, hk]))) hc)
-  · rw [hk]; exact Nat.lt_succ_self _
-  · simp at hk
-  · exact Nat.lt_succ_of_lt (Nat.lt_of_lt_of_le (hold k (Or.inr (by simp [tids, hk]))) hc)
+/-- `lg'` agrees with `lg` away from key `k`, and keeps reference answers -/
+structure Tr (lg lg' : Log) (k : Pid) : Prop where
+  unl : ∀ id, id ≠ k → Unlogged lg id → Unlogged lg' id
+  ra : ∀ q b, RA lg q b → RA lg' q b
+  same : ∀ id, id ≠ k → aget lg'.acts id = aget lg.acts id ∧ aget lg'.echo id = aget lg.echo id ∧
+    aget lg'.sinkAns id = aget lg.sinkAns id ∧ aget lg'.dels id = aget lg.dels id
 
-theorem bnd_of (nd : Node) (a : A) (nx : Nat) (h : JB nd a nx) (th : Thread) (ht : nd.threads = [th]) :
-    ∀ k, k ∈ ids a.reqs ∨ k ∈ tids th → k < nx := by
-  intro k hk; apply h.bnd k
-  rw [ht]; simpa [List.mem_append] using hk
+theorem tr_refl (lg : Log) (k : Pid) : Tr lg lg k := ⟨fun _ _ h => h, fun _ _ h => h, fun _ _ => ⟨rfl, rfl, rfl, rfl⟩⟩
 
-/-- the forward thread takes the next request (one-to-one / one-to-many: it enters the action) -/
-theorem jb_read (nd : Node) (a : A) (nx : Nat) (h : JB nd a nx) (p : Pkt) (rest : List Pkt)
-    (ht : nd.threads = [{ inbox := p :: rest, pc := .idle }]) (hk : ∀ k, nd.kind ≠ .manyToOne k) :
-    Node.step nd (.read 0) =
-      some ({ nd with tr := Tracer.read nd.tr 0 p.id, threads := [{ inbox := rest, pc := .action p [p] }] }, []) ∧
-    JB { nd with tr := Tracer.read nd.tr 0 p.id, threads := [{ inbox := rest, pc := .action p [p] }] }
-      (aread a 0 p.id) nx := by
-  have hg : getThread nd.threads 0 = some { inbox := p :: rest, pc := .idle } := by rw [ht]; rfl
-  obtain ⟨hpre, hJ'⟩ := J_read nd a [] 0 p rest (.action p [p]) nd.rows h.j hg (Or.inl ⟨[p], rfl⟩)
-  have hset : setThread nd.threads 0 { inbox := rest, pc := PC.action p [p] } = [{ inbox := rest, pc := .action p [p] }] := by
-    rw [ht]; rfl
-  rw [hset] at hJ'
-  have hb := bnd_of nd a nx h _ ht
-  refine ⟨?_, ?_, rfl, ?_, h.np, ?_⟩
-  · simp only [Node.step, hg]
-    cases hkd : nd.kind with
-    | manyToOne k => exact absurd hkd (hk k)
-    | oneToOne => simp [hset]
-    | oneToMany k => simp [hset]
-  · have e : ({ nd with tr := Tracer.read nd.tr 0 p.id, rows := nd.rows, threads := [{ inbox := rest, pc := .action p [p] }] } : Node) =
-        { nd with tr := Tracer.read nd.tr 0 p.id, threads := [{ inbox := rest, pc := .action p [p] }] } := rfl
-    rw [← e]; exact hJ'
-  · intro k hk'
-    simp only [List.mem_append, List.flatMap_cons, List.flatMap_nil, List.append_nil, tids, pendIds] at hk'
-    rcases hk' with hk' | hk'
-    · simp only [aread, ids_append, idsR, cellsOfSt, openIds, List.mem_append, List.mem_singleton] at hk'
-      rcases hk' with hk' | hk'
-      · exact hb k (Or.inl hk')
-      · rw [hk']; exact hb p.id (Or.inr (by simp [tids]))
-    · exact hb k (Or.inr (by simp only [tids, pendIds, List.append_nil, List.map_cons, List.mem_cons]; right; exact hk'))
-  · intro x hx
-    simp only [aread, List.mem_append, List.mem_singleton] at hx
-    rcases hx with hx | hx
-    · exact h.r0 x hx
-    · rw [hx]
+theorem tr_of_ext (lg lg' : Log) (k : Pid) (hx : LogExt lg lg' k) : Tr lg lg' k :=
+  ⟨fun id hne h => unlogged_ext lg lg' k hx id hne h, fun q b h => ra_ext lg lg' k hx q b h,
+   fun id hne => by obtain ⟨s1, s2, s3, s4⟩ := hx.2 id hne; exact ⟨s1, s3, s4, s2⟩⟩
 
-/-- the action returns: the thread holds the `Link`/`Write` program of the request -/
-theorem jb_finish (nd : Node) (a : A) (nx nx' : Nat) (h : JB nd a nx) (p : Pkt) (grp inbox : List Pkt)
-    (ht : nd.threads = [{ inbox := inbox, pc := .action p grp }]) (o : Outcome) (ops : List Op)
-    (hp : program nd.kind p o = some ops) (hnd : (introS (.finish 0 o)).Nodup)
-    (hfr : ∀ k ∈ introS (.finish 0 o), nx ≤ k ∧ k < nx') (hle : nx ≤ nx') :
-    Node.step nd (.finish 0 o) = some ({ nd with threads := [{ inbox := inbox, pc := .emit ops }] }, []) ∧
-    JB { nd with threads := [{ inbox := inbox, pc := .emit ops }] } a nx' := by
-  have hg : getThread nd.threads 0 = some { inbox := inbox, pc := .action p grp } := by rw [ht]; rfl
-  have hJ := jb_fut nd a nx h (introS (.finish 0 o)) hnd (fun k hk => (hfr k hk).1)
-  obtain ⟨hJ', _⟩ := J_finish nd a [] 0 o p grp inbox (by simpa using hJ) hg
-  have hJ2 := hJ' ops hp
-  have hset : setThread nd.threads 0 { inbox := inbox, pc := PC.emit ops } = [{ inbox := inbox, pc := .emit ops }] := by
-    rw [ht]; rfl
-  rw [hset] at hJ2
-  have hb := bnd_of nd a nx h _ ht
-  have hX : (⟨p.id, 0, .cells []⟩ : Req) ∈ a.reqs := by have := h.j.th 0 _ hg; simpa [ThOK] using this
-  obtain ⟨_, hsub⟩ := program_ok nd.kind p o ops 0 0 a.reqs hp hX
-  refine ⟨by simp [Node.step, hg, hp, hset], hJ2, rfl, ?_, h.np, h.r0⟩
-  intro k hk
-  simp only [List.mem_append, List.flatMap_cons, List.flatMap_nil, List.append_nil, tids, pendIds] at hk
-  rcases hk with hk | hk | hk
-  · exact Nat.lt_of_lt_of_le (hb k (Or.inl hk)) hle
-  · exact Nat.lt_of_lt_of_le (hb k (Or.inr (by simp [tids, hk]))) hle
-  · exact (hfr k (hsub.subset hk)).2
+theorem cellA_tr (lg lg' : Log) (k : Pid) (t : Tr lg lg' k) (n : Nat) (q : Pid) (c : Cell)
+    (hk : ∀ q', c = .linked q' → q' ≠ k ∧ aget lg'.owner q' = aget lg.owner q')
+    (h : CellA lg n q c) : CellA lg' n q c := by
+  cases c with
+  | linked q' =>
+    obtain ⟨e, hu, hw⟩ := h
+    subst e
+    exact ⟨rfl, t.unl q' (hk q' rfl).1 hu, by rw [(hk q' rfl).2]; exact hw⟩
+  | written q' w => exact h
+  | filled a => exact t.ra q a h
 
-theorem pend_nextPc_sub (o : Op) (ops : List Op) : ∀ k ∈ pendIds (nextPc ops), k ∈ pendIds (.emit (o :: ops)) := by
-  intro k hk
-  cases ops with
-  | nil => simp [nextPc, pendIds] at hk
-  | cons o' ops' =>
-    simp only [nextPc, pendIds] at hk ⊢
-    cases o <;> simp [linkTargets, hk]
+theorem all2_cellA_tr (lg lg' : Log) (k : Pid) (t : Tr lg lg' k) (n : Nat) : ∀ (qs : List Pid) (cs : List Cell),
+    (∀ q' ∈ linkedIds cs, q' ≠ k ∧ aget lg'.owner q' = aget lg.owner q') →
+    All2 (CellA lg n) qs cs → All2 (CellA lg' n) qs cs
+  | [], [], _, _ => trivial
+  | q :: qs, c :: cs, hk, h => by
+    refine ⟨cellA_tr lg lg' k t n q c ?_ h.1, all2_cellA_tr lg lg' k t n qs cs ?_ h.2⟩
+    · intro q' e; subst e; exact hk q' (by simp [linkedIds])
+    · intro q' hq'
+      apply hk q'
+      cases c <;> simp [linkedIds, hq']
+  | [], _ :: _, _, h => absurd h (by simp [All2])
+  | _ :: _, [], _, h => absurd h (by simp [All2])
 
-theorem step_op_eq (nd : Node) (inbox : List Pkt) (o : Op) (ops : List Op)
-    (ht : nd.threads = [{ inbox := inbox, pc := .emit (o :: ops) }]) (acc : Bool) :
-    Node.step nd (.op 0 acc) =
-      some ({ nd with tr := (tcall nd.tr (opCall acc o)).1, threads := [{ inbox := inbox, pc := nextPc ops }] },
-            (match o with
-             | .link _ _ => []
-             | .write w q => (Tracer.write nd.strict nd.tr w q.id (.pay q.pay) acc).2)) ∨ nd.strict = false := by
-  by_cases hs : nd.strict = true
-  · left
-    cases ops <;> cases o <;> simp [Node.step, ht, getThread, setThread, nextPc, opCall, tcall, hs]
-  · right; simpa using hs
+/-- `Write` accepted: the linked cell of `k` becomes `written` -/
+theorem all2_markWritten (lg lg' : Log) (k : Pid) (t : Tr lg lg' k) (n : Nat) (w : Wid) :
+    ∀ (qs : List Pid) (cs : List Cell), (openIds cs).Nodup →
+    (∀ q' ∈ linkedIds cs, q' ≠ k → aget lg'.owner q' = aget lg.owner q') →
+    All2 (CellA lg n) qs cs → All2 (CellA lg' n) qs (markWritten k w cs)
+  | [], [], _, _, _ => trivial
+  | q :: qs, c :: cs, hnd, ho, h => by
+    cases c with
+    | linked q' =>
+      simp only [openIds, List.nodup_cons] at hnd
+      simp only [markWritten]
+      by_cases e : q' = k
+      · rw [if_pos e]
+        refine ⟨h.1.1, all2_cellA_tr lg lg' k t n qs cs ?_ h.2⟩
+        intro q2 hq2
+        have hne : q2 ≠ k := fun e2 => hnd.1 (by rw [e, ← e2]; exact linkedIds_sub_open cs q2 hq2)
+        exact ⟨hne, ho q2 (by simp [linkedIds, hq2]) hne⟩
+      · rw [if_neg e]
+        refine ⟨cellA_tr lg lg' k t n q _ (fun q2 e2 => by
+          simp only [Cell.linked.injEq] at e2; subst e2; exact ⟨e, ho q' (by simp [linkedIds]) e⟩) h.1, ?_⟩
+        exact all2_markWritten lg lg' k t n w qs cs hnd.2 (fun q2 hq2 => ho q2 (by simp [linkedIds, hq2])) h.2
+    | written q' w' =>
+      simp only [openIds, List.nodup_cons] at hnd
+      exact ⟨h.1, all2_markWritten lg lg' k t n w qs cs hnd.2 (fun q2 hq2 => ho q2 (by simpa [linkedIds] using hq2)) h.2⟩
+    | filled b =>
+      simp only [openIds] at hnd
+      exact ⟨t.ra q b h.1, all2_markWritten lg lg' k t n w qs cs hnd (fun q2 hq2 => ho q2 (by simpa [linkedIds] using hq2)) h.2⟩
+  | [], _ :: _, _, _, h => absurd h (by simp [All2])
+  | _ :: _, [], _, _, h => absurd h (by simp [All2])
 
-/-- the thread makes the next `Link` / `Write` call of its program -/
-theorem jb_op (nd : Node) (a : A) (nx : Nat) (h : JB nd a nx) (inbox : List Pkt) (o : Op) (ops : List Op)
-    (ht : nd.threads = [{ inbox := inbox, pc := .emit (o :: ops) }]) (acc : Bool) :
-    Node.step nd (.op 0 acc) =
-      some ({ nd with tr := (tcall nd.tr (opCall acc o)).1, threads := [{ inbox := inbox, pc := nextPc ops }] },
-            (acall a (opCall acc o)).2) ∧
-    JB { nd with tr := (tcall nd.tr (opCall acc o)).1, threads := [{ inbox := inbox, pc := nextPc ops }] }
-      (acall a (opCall acc o)).1 nx ∧ Pre a (opCall acc o) := by
-  have hg : getThread nd.threads 0 = some { inbox := inbox, pc := .emit (o :: ops) } := by rw [ht]; rfl
-  obtain ⟨hpre, hJ'⟩ := J_op nd a [] 0 acc inbox o ops h.j hg
-  have hset : setThread nd.threads 0 { inbox := inbox, pc := nextPc ops } = [{ inbox := inbox, pc := nextPc ops }] := by
-    rw [ht]; rfl
-  rw [hset] at hJ'
-  have hb := bnd_of nd a nx h _ ht
-  obtain ⟨hev, _, _⟩ := call_refines a nd.tr (opCall acc o) h.j.trel h.j.inv hpre
-  refine ⟨?_, ⟨hJ', rfl, ?_, h.np, ?_⟩, hpre⟩
-  · rcases step_op_eq nd inbox o ops ht acc with he | he
-    · rw [he]
-      cases o with
-      | link s t => simp [opCall, acall]
-      | write w q =>
-        simp only [opCall, tcall, h.j.strict] at hev ⊢
-        rw [← hev]
-    · rw [h.j.strict] at he; cases he
-  · intro k hk
-    simp only [List.mem_append, List.flatMap_cons, List.flatMap_nil, List.append_nil, tids] at hk
-    rcases hk with hk | hk | hk
-    · rcases acall_ids_sub a nd.tr (opCall acc o) h.j.trel h.j.inv hpre k hk with h1 | h1
-      · exact hb k (Or.inl h1)
-      · cases o with
-        | link s t =>
-          simp only [opCall, newIds, List.mem_singleton] at h1
-          exact hb k (Or.inr (by simp [tids, pendIds, linkTargets, h1]))
-        | write w q => simp [opCall, newIds] at h1
-    · exact hb k (Or.inr (by simp [tids, hk]))
-    · exact hb k (Or.inr (by simp only [tids, List.mem_append]; right; exact pend_nextPc_sub o ops k hk))
-  · apply r0_of_answers a.reqs _ _ _ (acall_answers a (opCall acc o)) h.r0
-    intro r _; cases o <;> rfl
+/-- the answer to packet `k` arrives: its cell becomes `filled` -/
+theorem all2_fillCell (lg lg' : Log) (k : Pid) (t : Tr lg lg' k) (n : Nat) (ans : Ans) (hra : RA lg' k ans) :
+    ∀ (qs : List Pid) (cs : List Cell), (openIds cs).Nodup →
+    (∀ q' ∈ linkedIds cs, q' ≠ k → aget lg'.owner q' = aget lg.owner q') →
+    All2 (CellA lg n) qs cs → All2 (CellA lg' n) qs (fillCell k ans cs)
+  | [], [], _, _, _ => trivial
+  | q :: qs, c :: cs, hnd, ho, h => by
+    have rest_tr : (openIds cs).Nodup → k ∉ openIds cs → All2 (CellA lg' n) qs cs := by
+      intro _ hk
+      apply all2_cellA_tr lg lg' k t n qs cs _ h.2
+      intro q2 hq2
+      have hne : q2 ≠ k := fun e2 => hk (e2 ▸ linkedIds_sub_open cs q2 hq2)
+      exact ⟨hne, ho q2 (by cases c <;> simp [linkedIds, hq2]) hne⟩
+    cases c with
+    | linked q' =>
+      simp only [openIds, List.nodup_cons] at hnd
+      simp only [fillCell]
+      by_cases e : q' = k
+      · rw [if_pos e]
+        exact ⟨by show RA lg' q ans; rw [← h.1.1, e]; exact hra, rest_tr hnd.2 (e ▸ hnd.1)⟩
+      · rw [if_neg e]
+        refine ⟨cellA_tr lg lg' k t n q _ (fun q2 e2 => by
+          simp only [Cell.linked.injEq] at e2; subst e2; exact ⟨e, ho q' (by simp [linkedIds]) e⟩) h.1, ?_⟩
+        exact all2_fillCell lg lg' k t n ans hra qs cs hnd.2 (fun q2 hq2 => ho q2 (by simp [linkedIds, hq2])) h.2
+    | written q' w' =>
+      simp only [openIds, List.nodup_cons] at hnd
+      simp only [fillCell]
+      by_cases e : q' = k
+      · rw [if_pos e]
+        have hq : q' = q := h.1
+        exact ⟨by show RA lg' q ans; rw [← hq, e]; exact hra, rest_tr hnd.2 (e ▸ hnd.1)⟩
+      · rw [if_neg e]
+        exact ⟨h.1, all2_fillCell lg lg' k t n ans hra qs cs hnd.2 (fun q2 hq2 => ho q2 (by simpa [linkedIds] using hq2)) h.2⟩
+    | filled b =>
+      simp only [openIds] at hnd
+      simp only [fillCell]
+      exact ⟨t.ra q b h.1, all2_fillCell lg lg' k t n ans hra qs cs hnd (fun q2 hq2 => ho q2 (by simpa [linkedIds] using hq2)) h.2⟩
+  | [], _ :: _, _, _, h => absurd h (by simp [All2])
+  | _ :: _, [], _, _, h => absurd h (by simp [All2])
 
-/-- writer `w` hands the node an answer -/
-theorem jb_answer (nd : Node) (a : A) (nx : Nat) (h : JB nd a nx) (w : Wid) (ans : Ans) (hq : getL a.wq w ≠ []) :
-    Node.step nd (.answer w ans) =
-      some ({ nd with tr := (receiveW nd.strict nd.tr w (some ans)).1 }, (acall a (.answer w ans)).2) ∧
-    JB { nd with tr := (receiveW nd.strict nd.tr w (some ans)).1 } (acall a (.answer w ans)).1 nx := by
-  have hJ' := J_answer nd a [] w ans h.j
-  obtain ⟨hev, _, _⟩ := call_refines a nd.tr (.answer w ans) h.j.trel h.j.inv trivial
-  have hw : getL nd.tr.writes w = getL a.wq w := by simp only [getL_eq, h.j.trel.writes w]
-  refine ⟨?_, hJ', h.one, ?_, h.np, ?_⟩
-  · simp only [Node.step, hw]
-    cases hl : getL a.wq w with
-    | nil => exact absurd hl hq
-    | cons k rest =>
-      simp only [tcall, h.j.strict] at hev ⊢
-      rw [← hev]
-  · intro k hk
-    rw [List.mem_append] at hk
-    rcases hk with hk | hk
-    · rcases acall_ids_sub a nd.tr (.answer w ans) h.j.trel h.j.inv trivial k hk with h1 | h1
-      · exact h.bnd k (List.mem_append_left _ h1)
-      · simp [newIds] at h1
-    · exact h.bnd k (List.mem_append_right _ hk)
-  · exact r0_of_answers a.reqs _ _ _ (acall_answers a (.answer w ans)) h.r0 (fun _ _ => rfl)
+/-- a request that does not own `k` keeps its invariant along the log change -/
+theorem reqA_tr (lg lg' : Log) (k : Pid) (t : Tr lg lg' k) (n : Nat) (pc pc' : PC) (y : Req)
+    (hpc : remFor pc' y.p = remFor pc y.p) (hne : y.p ≠ k)
+    (hl : ∀ q' ∈ linkedIds (cellsOfSt y.st), q' ≠ k ∧ aget lg'.owner q' = aget lg.owner q')
+    (hr : ∀ q' ∈ remFor pc y.p, q' ≠ k ∧ aget lg'.owner q' = aget lg.owner q')
+    (h : ReqA lg n pc y) : ReqA lg' n pc' y := by
+  simp only [ReqA] at h ⊢
+  rw [hpc]
+  obtain ⟨s1, s2, s3, s4⟩ := t.same y.p hne
+  cases hst : y.st with
+  | direct w => rw [hst] at h; exact h
+  | cells cs =>
+    rw [hst] at h hl
+    obtain ⟨qs, a1, a2, a3, a4, a5, a6, a7⟩ := h
+    refine ⟨qs, all2_cellA_tr lg lg' k t n qs cs hl a1, by rw [s1]; exact a2, by rw [s2]; exact a3,
+      by rw [s3]; exact a4, by rw [s4]; exact a5, a6, ?_⟩
+    intro q' hq'
+    obtain ⟨u, o⟩ := a7 q' hq'
+    exact ⟨t.unl q' (hr q' hq').1 u, by rw [(hr q' hq').2]; exact o⟩
+
+theorem reqB_tr (lg lg' : Log) (k : Pid) (t : Tr lg lg' k) (n : Nat) (pc pc' : PC) (y : Req)
+    (hpc : remFor pc' y.p = remFor pc y.p) (hne : y.p ≠ k)
+    (hl : ∀ q' ∈ linkedIds (cellsOfSt y.st), q' ≠ k ∧ aget lg'.owner q' = aget lg.owner q')
+    (hr : ∀ q' ∈ remFor pc y.p, q' ≠ k ∧ aget lg'.owner q' = aget lg.owner q')
+    (h : ReqB lg n pc y) : ReqB lg' n pc' y := by
+  rcases h with h | ⟨v, e1, e2, e3⟩
+  · exact Or.inl (reqA_tr lg lg' k t n pc pc' y hpc hne hl hr h)
+  · exact Or.inr ⟨v, e1, t.ra y.p v e2, by rw [hpc]; exact e3⟩
+
+theorem cells_ra (lg : Log) (n : Nat) : ∀ (qs : List Pid) (cs : List Cell), All2 (CellA lg n) qs cs →
+    hasNil (cs.map cellVal) = false → ∃ f, allSome (qs.map (refAns lg f)) = some (cellsOf (cs.map cellVal))
+  | [], [], _, _ => ⟨0, rfl⟩
+  | q :: qs, c :: cs, h, hn => by
+    cases c with
+    | linked q' => simp [cellVal, hasNil] at hn
+    | written q' w => simp [cellVal, hasNil] at hn
+    | filled a =>
+      simp only [List.map_cons, cellVal, hasNil] at hn
+      obtain ⟨f2, h2⟩ := cells_ra lg n qs cs h.2 hn
+      obtain ⟨f1, h1⟩ : RA lg q a := h.1
+      refine ⟨f1 + f2, ?_⟩
+      have e1 : refAns lg (f1 + f2) q = some a := refAns_fuel_le lg q a f1 h1 f2
+      have e2 := allSome_congr (refAns lg f2) (refAns lg (f1 + f2)) qs _
+        (fun c' _ b hb => refAns_fuel_ge lg c' b f2 (f1 + f2) hb (Nat.le_add_left _ _)) h2
+      simp only [List.map_cons, allSome, e1, e2, cellVal, cellsOf]
+  | [], _ :: _, h, _ => absurd h (by simp [All2])
+  | _ :: _, [], h, _ => absurd h (by simp [All2])
+
+/-- a complete request is answered with the reference answer of its packet -/
+theorem ra_of_reqA (lg : Log) (n : Nat) (pc : PC) (x : Req) (b : Ans) (h : ReqB lg n pc x)
+    (hb : reply x.st = some b) : RA lg x.p b := by
+  rcases h with h | ⟨v, e1, e2, _⟩
+  rotate_left
+  · rw [e1] at hb
+    simp only [reply, List.map_cons, List.map_nil, cellVal, hasNil, Bool.false_eq_true, if_false,
+      Option.some.injEq] at hb
+    rw [← hb]
+    exact e2
+  simp only [ReqA] at h
+  cases hst : x.st with
+  | direct w => rw [hst] at hb; simp [reply] at hb
+  | cells cs =>
+    rw [hst] at h hb
+    obtain ⟨qs, a1, a2, a3, a4, a5, a6, _⟩ := h
+    have hrem : remFor pc x.p = [] := by
+      rcases a6 with e | e
+      · exact e
+      · rw [reply_none_of_linked cs (prot_of_allLinked cs e)] at hb; cases hb
+    cases cs with
+    | nil => simp [reply] at hb
+    | cons c cs =>
+      simp only [reply] at hb
+      by_cases hn : hasNil ((c :: cs).map cellVal) = true
+      · rw [if_pos hn] at hb; cases hb
+      · rw [if_neg hn] at hb
+        simp only [Option.some.injEq] at hb
+        have hn' : hasNil ((c :: cs).map cellVal) = false := by simpa using hn
+        obtain ⟨f, hf⟩ := cells_ra lg n qs (c :: cs) a1 hn'
+        have hqne : qs ≠ [] := by
+          intro e; rw [e] at a1; simp [All2] at a1
+        rw [hrem, List.append_nil] at a2
+        have hacts : aget lg.acts x.p = some qs := by rw [a2]; simp [optl, hqne]
+        exact ⟨f + 1, by simp only [refAns, a3, a4, a5, hacts, hf, ← hb, joinCells]⟩
+
+theorem reply_none_of_hasNil (cs : List Cell) (h : hasNil (cs.map cellVal) = true) : reply (.cells cs) = none := by
+  cases cs with
+  | nil => rfl
+  | cons c cs => simp only [reply, h, if_true]
+
+theorem updReq_map_p (p : Pid) (f : RSt → RSt) : ∀ (rs : List Req), (updReq p f rs).map (·.p) = rs.map (·.p)
+  | [] => rfl
+  | z :: zs => by
+    simp only [updReq]
+    split
+    · simp
+    · simp [updReq_map_p p f zs]
+
+def ansOf (x : Req) : List (Pid × Ans) :=
+  match reply x.st with
+  | some b => [(x.p, b)]
+  | none => []
+
+theorem ansOf_fst : ∀ (pre : List Req), (∀ x ∈ pre, ∃ b, reply x.st = some b) →
+    (pre.flatMap ansOf).map (·.1) = pre.map (·.p)
+  | [], _ => rfl
+  | x :: xs, h => by
+    obtain ⟨b, hb⟩ := h x List.mem_cons_self
+    simp only [List.flatMap_cons, List.map_append, List.map_cons, ansOf, hb, List.map_nil,
+      ansOf_fst xs (fun y hy => h y (List.mem_cons_of_mem _ hy))]
+    rfl
+
+theorem allLinked_no_written : ∀ (cs : List Cell) (k : Pid) (w : Wid), allLinked cs = true → Cell.written k w ∉ cs
+  | [], _, _, _ => by simp
+  | c :: cs, k, w, h => by
+    cases c with
+    | linked q =>
+      simp only [allLinked, Bool.true_and] at h
+      simp only [List.mem_cons, not_or]
+      exact ⟨by simp, allLinked_no_written cs k w h⟩
+    | written q w' => simp [allLinked] at h
+    | filled b => simp [allLinked] at h
 
 end Uniflow.FlowH
